@@ -116,5 +116,56 @@ fn main() {
 			sum.sample(case);
 		}
 	}
+	// ... and when the new instance has restored a checkpoint in between (its commit-log segments start again from the
+	// checkpoint's numbers): the old handle's Drop must not clean them away
+	for flush_on_close in [true, false] {
+		sum.cases += 1;
+		let case = json!({"restore_in_new_instance": true, "flush_on_close": flush_on_close});
+		let base = verif_harness::scratch_dir("dclose");
+		let dir = base.path().join("db");
+		let ck = base.path().join("ck");
+		let mk = || opts(&dir, false).with_flush_on_close(flush_on_close);
+		let t1 = TreeBuilder::with_options(mk()).build().expect("open 1");
+		let _ = t1.create_checkpoint(&ck);
+		for i in 0..30 {
+			let mut t = t1.begin().unwrap();
+			t.set(format!("a{i:03}").into_bytes(), vec![1u8; 300]).unwrap();
+			rt.block_on(t.commit()).unwrap();
+			if i % 10 == 9 {
+				let _ = t1.verif_flush();
+			}
+		}
+		rt.block_on(t1.close()).expect("close 1");
+		let t2 = TreeBuilder::with_options(mk()).build().expect("open 2");
+		if let Err(e) = t2.restore_from_checkpoint(&ck) {
+			sum.drift(json!({"kind":"restore_failed","error":e.to_string()}));
+			continue;
+		}
+		for i in 0..5 {
+			let mut t = t2.begin().unwrap();
+			t.set(format!("c{i:03}").into_bytes(), vec![3u8; 100]).unwrap();
+			rt.block_on(t.commit()).unwrap();
+		}
+		drop(t1);
+		std::thread::sleep(Duration::from_millis(300));
+		// crash of the new instance: what the files hold now
+		let img = base.path().join("img");
+		let _ = std::process::Command::new("cp").arg("-r").arg(&dir).arg(&img).status();
+		match TreeBuilder::with_options(opts(&img, false)).build() {
+			Ok(t3) => {
+				let r = t3.begin().unwrap();
+				let missing = (0..5).filter(|i| r.get(format!("c{i:03}").as_bytes()).unwrap().is_none()).count();
+				if missing > 0 {
+					sum.violation(json!({"kind":"data_lost","missing":missing,"case":case,
+						"detail":"commits of the new instance are gone after the old, closed handle was dropped"}));
+				}
+				drop(r);
+				let _ = rt.block_on(t3.close());
+			}
+			Err(e) => sum.violation(json!({"kind":"reopen_refused","error":e.to_string(),"case":case})),
+		}
+		let _ = rt.block_on(t2.close());
+		sum.sample(case);
+	}
 	sum.print();
 }
